@@ -76,11 +76,108 @@ def runHistory (n : Nat) : App → List AOp → List String → List String
     let r := appStep a op
     runHistory n r.2 ops (snapshot n r.1 r.2 :: acc)
 
+/-! ### C03 conversations
+
+  box c03 <op> ; <op> ; ...
+      ops:  send K|D <pyval> | echo <pyval> | make <k> | forget | tables <nA> <nB>
+      pyval:  plain value text | ( pyval .. ) | R<k> (own object) | Z<k> <plain> (subclass instance) | P<k> (proxy held)
+      answer per op:  <label tree> => <arrived value> [=> <label tree back> => <arrived value>]
+      label tree:  V <plain> | T( .. ) | L<k> | M<k> | ?<tag>
+      arrived:  plain text | ( .. ) | P<k>#<serial>*<count> | R<k>
+-/
+
+partial def parsePy : List String → Option (PyVal × List String)
+  | [] => none
+  | tok :: rest =>
+    match tok.toList with
+    | ['('] => (parseSeq rest #[]).map (fun (xs, r) => (.tup xs, r))
+    | 'R' :: cs => (parseNatChars cs).map (fun k => (.obj k, rest))
+    | 'P' :: cs => (parseNatChars cs).map (fun k => (.proxy k 0, rest))
+    | 'Z' :: cs =>
+      match parseNatChars cs, parseVal rest with
+      | some k, some (v, r) => some (.sub v k, r)
+      | _, _ => none
+    | _ => (parseVal (tok :: rest)).map (fun (v, r) => (.imm v, r))
+where
+  parseSeq : List String → Array PyVal → Option (List PyVal × List String)
+    | [], _ => none
+    | tok :: rest, acc =>
+      if tok = ")" then some (acc.toList, rest)
+      else match parsePy (tok :: rest) with
+        | some (v, r) => parseSeq r (acc.push v)
+        | none => none
+
+partial def showLabel : Label → String
+  | .value v => "V " ++ showVal v
+  | .tuple ls => "T( " ++ String.join (ls.map (fun l => showLabel l ++ " ")) ++ ")"
+  | .localRef k => "L" ++ toString k
+  | .remoteRef k => "M" ++ toString k
+  | .other t => "?" ++ toString t
+
+partial def showPy (s : Side) : PyVal → String
+  | .imm v => showVal v
+  | .tup xs => "( " ++ String.join (xs.map (fun x => showPy s x ++ " ")) ++ ")"
+  | .obj k => "R" ++ toString k
+  | .sub _ k => "R" ++ toString k
+  | .proxy k pid => "P" ++ toString k ++ "#" ++ toString pid ++ "*" ++ showSlot (s.px k)
+
+def showSeen (seen : Seen) : String :=
+  " => ".intercalate ((List.zip seen.labels seen.values).map (fun (l, (y, s)) => showLabel l ++ " => " ++ showPy s y))
+
+inductive COp where
+  | send (keep : Bool) (x : PyVal)
+  | echo (x : PyVal)
+  | make (k : Nat)
+  | forget
+  | tables (na nb : Nat)
+
+def parseCOp : List String → Option COp
+  | "send" :: "K" :: toks => match parsePy toks with
+    | some (x, []) => some (.send true x)
+    | _ => none
+  | "send" :: "D" :: toks => match parsePy toks with
+    | some (x, []) => some (.send false x)
+    | _ => none
+  | "echo" :: toks => match parsePy toks with
+    | some (x, []) => some (.echo x)
+    | _ => none
+  | ["make", k] => (parseNatChars k.toList).map .make
+  | ["forget"] => some .forget
+  | ["tables", a, b] => match parseNatChars a.toList, parseNatChars b.toList with
+    | some a, some b => some (.tables a b)
+    | _, _ => none
+  | _ => none
+
+def stepConv (c : Conv) : COp → String × Conv
+  | .send keep x => match c.send x keep with
+    | .ok (seen, c') => (showSeen seen, c')
+    | .error e => ("err " ++ e.name, c)
+  | .echo x => match c.echo x with
+    | .ok (seen, c') => (showSeen seen, c')
+    | .error e => ("err " ++ e.name, c)
+  | .make k => match c.make k with
+    | .ok (seen, c') => (showSeen seen, c')
+    | .error e => ("err " ++ e.name, c)
+  | .forget => ("ok", c.forget)
+  | .tables na nb =>
+    ("a=" ++ ",".intercalate ((List.range na).map (fun k => showSlot (c.a.tbl k)))
+      ++ " b=" ++ ",".intercalate ((List.range nb).map (fun k => showSlot (c.b.tbl k))), c)
+
+def runConv : Conv → List COp → List String → List String
+  | _, [], acc => acc.reverse
+  | c, op :: ops, acc =>
+    let r := stepConv c op
+    runConv r.2 ops (r.1 :: acc)
+
 def boxOp : List String → String
   | "c10" :: n :: toks =>
     match parseNatChars n.toList, (splitOps toks).mapM parseAOp with
     | some n, some ops => " | ".intercalate (runHistory n App.init ops [])
     | _, _ => "bad-op"
+  | "c03" :: toks =>
+    match (splitOps toks).mapM parseCOp with
+    | some ops => " | ".intercalate (runConv Conv.init ops [])
+    | none => "bad-op"
   | _ => "bad-op"
 
 end Rpyc.Drv
